@@ -180,3 +180,67 @@ pub fn make_pool(seed: u64, n512: usize, n1024: usize) -> Pool {
     });
     Pool { keys }
 }
+
+// ------------------------------------------------------------------ key cache
+
+use std::collections::HashMap;
+use std::sync::{Arc, Mutex, OnceLock};
+
+pub struct Key {
+    pub n: usize,
+    pub seed: [u8; 32],
+    pub sk: Sk,
+    pub pk: Pk,
+    pub sk_bytes: Vec<u8>,
+    pub pk_bytes: Vec<u8>,
+}
+
+static CACHE: OnceLock<Mutex<HashMap<(usize, [u8; 32]), Arc<Key>>>> = OnceLock::new();
+
+/// keygen(n, seed), memoised for the lifetime of the process (key generation is the expensive
+/// step; cases name keys by seed so that replay files stay self-contained).
+pub fn key(n: usize, seed: [u8; 32]) -> Arc<Key> {
+    let cache = CACHE.get_or_init(|| Mutex::new(HashMap::new()));
+    if let Some(k) = cache.lock().unwrap().get(&(n, seed)) {
+        return k.clone();
+    }
+    let (sk, pk) = keygen(n, seed);
+    let k = Arc::new(Key { n, seed, sk_bytes: sk.to_bytes(), pk_bytes: pk.to_bytes(), sk, pk });
+    cache.lock().unwrap().insert((n, seed), k.clone());
+    k
+}
+
+/// Generate (in parallel) and cache the keys for the given seeds.
+pub fn warm(specs: &[(usize, [u8; 32])], threads: usize) {
+    let next = std::sync::atomic::AtomicUsize::new(0);
+    std::thread::scope(|sc| {
+        for _ in 0..threads.max(1) {
+            sc.spawn(|| loop {
+                let i = next.fetch_add(1, std::sync::atomic::Ordering::Relaxed);
+                if i >= specs.len() {
+                    break;
+                }
+                // a panic in keygen is left to the check that owns the seed
+                let _ = std::panic::catch_unwind(|| key(specs[i].0, specs[i].1));
+            });
+        }
+    });
+}
+
+/// Deterministic list of key seeds for a run: `count` seeds derived from (VERIF_SEED, tag).
+pub fn seed_list(seed: u64, tag: u64, count: usize) -> Vec<[u8; 32]> {
+    (0..count).map(|i| crate::util::seed32(seed ^ crate::util::mix(tag.wrapping_mul(0x1_0000_0001).wrapping_add(i as u64)))).collect()
+}
+
+pub fn seed_hex(s: &[u8; 32]) -> crate::util::Hex {
+    crate::util::Hex(s.to_vec())
+}
+
+pub fn seed_from(h: &crate::util::Hex) -> Option<[u8; 32]> {
+    if h.0.len() != 32 {
+        return None;
+    }
+    let mut s = [0u8; 32];
+    s.copy_from_slice(&h.0);
+    Some(s)
+}
